@@ -31,7 +31,7 @@ class ResWorld(World):
     name = "W-res"
 
     def __init__(self, variant: str = "full", low_energy: bool = True, pairs: bool = True, prices: bool = False,
-                 mechs=("quiet", "small", "quiet"), idle_timeout: int = 120, gas: bool = False, name: str = "", atomic_pairs: bool = False, v0_energy=None, split_base: bool = False, throttle: float = 1.0, slots: int = 1, twin_base: bool = False, auto: str = "", v2_energy=None, s1_site: str = "F1", v2_site: str = "X1"):
+                 mechs=("quiet", "small", "quiet"), idle_timeout: int = 120, gas: bool = False, name: str = "", atomic_pairs: bool = False, v0_energy=None, split_base: bool = False, throttle: float = 1.0, slots: int = 1, twin_base: bool = False, auto: str = "", v2_energy=None, s1_site: str = "F1", v2_site: str = "X1", queued_start: bool = False):
         super().__init__()
         self.pairs = pairs
         if name:
@@ -130,6 +130,7 @@ class ResWorld(World):
         if variant == "full":
             per_vehicle += [
                 ("DispatchStation", "s0", "LEVEL_1"),  # plug type not installed
+                ("ChargeStation", "s0", "LEVEL_1"),  # plugging in, on the spot, on a plug type the scenario knows but s0 does not have
                 ("ChargeStation", "s1", "DCFC"),  # far away
                 ("ReserveBase", "b1"),  # far away
                 ("ChargeBase", "b1", "LEVEL_2"),  # base without station
@@ -140,7 +141,7 @@ class ResWorld(World):
         self.per_vehicle = per_vehicle
         # C09 atomicity: the full menu incl. wrong plug / far away / missing target / missing vehicle, on every reached state
         full = per_vehicle + [k for k in [
-            ("DispatchStation", "s0", "LEVEL_1"), ("ChargeStation", "s1", "DCFC"), ("ReserveBase", "b1"), ("ChargeBase", "b1", "LEVEL_2"),
+            ("DispatchStation", "s0", "LEVEL_1"), ("ChargeStation", "s0", "LEVEL_1"), ("ChargeStation", "s1", "DCFC"), ("ReserveBase", "b1"), ("ChargeBase", "b1", "LEVEL_2"),
             ("ChargeBase", "b0", "DCFC"), ("DispatchStation", "nope", "DCFC"), ("DispatchBase", "nope"), ("ChargeStation", "nope", "DCFC"),
             ("ReserveBase", "nope"), ("DispatchTrip", "nope"),
             # a street that does not exist: no such link, a well-formed id of cells that are no cells, a half-valid id
@@ -150,6 +151,18 @@ class ResWorld(World):
         pair_kinds = [("Idle",), ("DispatchTrip", "r0"), ("ChargeStation", "s0", "DCFC"), ("DispatchStation", "s0", "DCFC"),
                       ("ReserveBase", "b0"), ("ChargeBase", "b0", "LEVEL_2"), ("DispatchBase", "b0")]
         self.pair_menu = [("I", k[0], vid) + tuple(k[1:]) for vid in ("v0", "v1", "v2") for k in pair_kinds]
+        if queued_start:
+            # a second start state, reached by real steps: v0 has driven to s0 and holds its DCFC plug, v2 has followed and waits in
+            # the queue -- so that one or two deviations are enough to let something else happen WHILE a vehicle is queueing
+            cur, _ = self.step(sim, (("I", "DispatchStation", "v0", "s0", "DCFC"),))
+            cur, _ = self.step(cur, (("I", "DispatchStation", "v2", "s0", "DCFC"),))
+            for _ in range(6):
+                if cur.vehicles["v2"].vehicle_state.__class__.__name__ == "ChargeQueueing":
+                    break
+                cur, _ = self.step(cur, ())
+            names = {vid: v.vehicle_state.__class__.__name__ for vid, v in cur.vehicles.items()}
+            assert names["v0"] == "ChargingStation" and names["v2"] == "ChargeQueueing", names
+            self.starts["v0-charging,v2-queued"] = cur
 
 
 def make(**kw) -> ResWorld:
